@@ -122,6 +122,61 @@ def _l1_headers(si: int, nm: int, rejects: bool, hdr: int, mrp: int, ok: bool) -
     return _run(name, nm, rejects, (None if mrp == 0 else mrp), hdr, specs) is None
 
 
+def _l1_per_cell(stale: bool, b0: bool, i0: bool, b1: bool, i1: bool, maxh: int) -> bool:
+    """
+    pre: 1 <= maxh <= 3
+    post: _
+    """
+    # one file per cell (--scsepf): real FastqHandle(single_cell=True) + real HandleLimiter over the in-memory file system
+    import singlecellmultiomics.pyutils.handlelimiter as HL
+    name, nm = 'NLAIII384C8U3', 2
+    strat = STRATS[name]
+    specs = [(0, b0, i0, True), (0, b1, i1, True)]
+    pairs = [S.make_pair(i, 0, sp[0], nm) for i, sp in enumerate(specs)]
+    PARSER.schedule = [(sp[1], sp[2], sp[3]) for sp in specs]
+    PARSER.current = 0
+    fs = MemFS()
+    FH.gzip = fs
+    HL.gzip, HL.open, HL.time = fs, fs.builtin_open, fs
+    cellfile = 'demux.%s.%s.%s.fastq.gz' % (PARSER.index, name, '%s')
+    if stale:
+        fs.files[cellfile % 'R1'] = ['@old 17099/1\nT\n+\nI\n']
+        fs.files[cellfile % 'R2'] = ['@old 17099/2\nT\n+\nI\n']
+
+    class MemIter:
+        def __init__(self, *paths):
+            self.i = 0
+
+        def __iter__(self):
+            return self
+
+        def __next__(self):
+            if self.i >= len(pairs):
+                raise StopIteration
+            PARSER.current = self.i
+            self.i += 1
+            return pairs[self.i - 1]
+    DSL.fastqIterator = types.SimpleNamespace(FastqIterator=MemIter, FastqRecord=FI.FastqRecord)
+    target = FH.FastqHandle('demux', pairedEnd=True, single_cell=True, maxHandles=maxh)
+    with contextlib.redirect_stdout(io.StringIO()):
+        processed, yields = LOADER.demultiplex(['R1.fq', 'R2.fq'], strategies=[strat], library='LIB', targetFile=target, rejectHandle=None)
+    target.close()
+    accepted = [17000 + i for i, sp in enumerate(specs) if sp[1] and sp[2]]
+    if not accepted:
+        # no record for this cell in this run: a file of an earlier run is simply not touched
+        return fs.open_count == 0 and yields.get(name, 0) == 0
+    try:
+        r1 = S.parse_sink(fs.content(cellfile % 'R1'))
+        r2 = S.parse_sink(fs.content(cellfile % 'R2'))
+    except ValueError:
+        return False
+    if [S.cy_of(x[0]) for x in r1] != accepted or [S.cy_of(x[0]) for x in r2] != accepted:
+        return False
+    if any('old' in x[0] for x in r1 + r2):
+        return False
+    return fs.open_count == 0 and yields.get(name, 0) == len(accepted)
+
+
 def _l2_reader(n1: int, n2: int, blank_at: int) -> bool:
     """
     pre: 0 <= n1 <= 9
@@ -169,6 +224,7 @@ LEMMAS = [
          cases={'quick': [dict(id=n, pre=['si == %d' % i]) for i, n in enumerate(NAMES)]}),
     dict(name='L1_headers_maxpairs', fn='_l1_headers', engine='E1', timeout=_T, reach_timeout=30, replay='replay.C01:replay',
          cases={'quick': [dict(id=n, pre=['si == %d' % i]) for i, n in enumerate(NAMES)]}),
+    dict(name='L1_per_cell_output', fn='_l1_per_cell', engine='E1', timeout=_T, replay='replay.C01:replay_per_cell'),
     dict(name='L2_lockstep_reader', fn='_l2_reader', engine='E1', timeout=_T, replay='replay.C01:replay_reader'),
 ]
 
@@ -177,7 +233,7 @@ PROPERTY = dict(
                'every registered strategy demultiplex (%d)' % len(NAMES), 'IlluminaBaseDemultiplexer.demultiplex', 'TaggedRecord.asFastq',
                'fastqHandle.FastqHandle.__init__/write/close', 'fastqIterator.FastqIterator.__next__/_readFastqRecord'],
     bounds=dict(pairs='1..2 pairs (3 in the header/maxReadPairs lemma)', content='first pair from a pool of 4 (full length, shorter than the prefix, empty, N-rich)',
-                verdicts='barcode / sequencing-index / base-demultiplexer-index verdicts symbolic per pair', modes='paired and single end, rejects on/off, 3 header styles, maxReadPairs None/1..3',
+                verdicts='barcode / sequencing-index / base-demultiplexer-index verdicts symbolic per pair', modes='paired and single end, rejects on/off, one-file-per-cell output incl. stale files of an earlier run, 3 header styles, maxReadPairs None/1..3',
                 strategies='each of the %d registered strategies' % len(NAMES)),
     outside=['gzip itself', 'library auto-detection (detectLibYields)', 'cluster submission branch of demux.py', 'headers longer than 255 characters (C04-L3)',
              'several strategies selected at once', 'maxReadPairs = 0', 'symbolic read content (pools are used; C02 covers symbolic sequences per strategy)'],
